@@ -206,7 +206,8 @@ pub fn ref_eval(e: &Expr) -> RefVal {
             }
             Defined { si: Si { value: v * m.scale, dim: m.dim }, plain: false }
         }
-        Expr::Leaf(_, si) => Defined { si: si.clone(), plain: false },
+        // a looked-up fact without a unit behaves as a plain number
+        Expr::Leaf(_, si) => Defined { si: si.clone(), plain: si.dim == DIM0 },
         Expr::Paren(a) => ref_eval(a),
         Expr::To(a, u) => {
             let a = match ref_eval(a) {
@@ -257,6 +258,11 @@ pub fn ref_eval(e: &Expr) -> RefVal {
                         // quantity side is dimensionless.
                         return DontCare("plain number combined with a quantity (C02's oracle)");
                     } else if av.dim != bv.dim {
+                        if av.dim == DIM0 || bv.dim == DIM0 {
+                            // `kg/kg + kg`: the statement does not say whether a
+                            // computed dimensionless quantity counts as a plain number
+                            return DontCare("dimensionless computed quantity combined with a quantity");
+                        }
                         return Undefined("sum of incommensurable quantities");
                     } else {
                         (av.value, bv.value, av.dim, false)
